@@ -104,8 +104,9 @@ struct World {
 
 // A world mutation between two ticks
 struct Op {
-  std::string op; // "rm" | "mk" | "set" | "host" | "proc"
+  std::string op; // "rm" | "mk" | "set" | "host" | "proc" | "mv"
   std::string path;
+  std::string to; // "mv": new path (the directory keeps its inode)
   Cg cg;
   Host host;
   int pid{0};
@@ -143,6 +144,8 @@ class Sim {
   // kernel model -----------------------------------------------------------
   int onKill(pid_t pid, int sig); // 0 or errno
   long onWrite(const std::string& abspath, const std::string& data);
+  // processes that a write of cgroup.kill found in the subtree (-1: the last write was something else)
+  long lastKillCount{-1};
   int onPidfdOpen(pid_t pid); // fd or -errno
   int onMrelease(int fd);
   // path substitution for "unreadable" faults; "" if none
